@@ -71,6 +71,10 @@ def run(ctx):
         check_foot(repo, eng, res)
         check_clear_update(repo, eng, res)
         check_merge_first(repo, res)
+        from .common import check_dead_params
+
+        nd = check_dead_params(res, PROP, "E-ALIAS", [m for cn in CORE_CLASSES for m in repo.get_class(cn).methods.values()], "what the method does or returns")
+        res.floor("methods checked for dead parameters", nd, 60)
     return res
 
 
